@@ -70,17 +70,18 @@ class TracerTwin(BoundedCheck):
             for script in itertools.product(ALPHABET, repeat=ma):
                 for errors in ('raise', 'skip', 'ignore', 'replace'):
                     for failures in ('raise', 'ignore'):
-                        for trace in (True, ['Y', 'X'], 'X'):
+                        for trace in (True, ['Y', 'X'], 'X', 'Long', ('Y', 'Long')):
                             yield dict(script=list(script), max_iter=ma, min_iter=0, errors=errors, failures=failures, trace=trace, entry='solve_t', cfe=True, repeat=False)
         rnd = random.Random(seed + 3)
         for _ in range(6000 if tier == 'thorough' else 400):
             ma = rnd.randint(1, 5)
             yield dict(script=[rnd.choice(ALPHABET) for _ in range(ma)], max_iter=ma, min_iter=rnd.randint(0, ma), errors=rnd.choice(['raise', 'skip', 'ignore', 'replace']),
-                       failures=rnd.choice(['raise', 'ignore']), trace=rnd.choice([True, ['Y'], 'X', ['X', 'Y', 'Z']]), entry=rnd.choice(['solve', 'solve_period', 'solve_t']),
+                       failures=rnd.choice(['raise', 'ignore']), trace=rnd.choice([True, ['Y'], 'X', ['X', 'Y', 'Z'], 'Long', ('Long', 'X'), ('Y',)]), entry=rnd.choice(['solve', 'solve_period', 'solve_t']),
                        cfe=rnd.random() < 0.5, repeat=rnd.random() < 0.4)
 
     def run_one(self, cls, case, trace):
         m = cls(list(range(2000, 2005)), X=0.0, Y=0.0, Z=3.0)
+        m.add_variable('Long', 5.0)        # a variable with a multi-character name (a single name given as a string is one name)
         m.script = tuple(case['script'])
         kw = dict(min_iter=case['min_iter'], max_iter=case['max_iter'], tol=TOL, failures=case['failures'], errors=case['errors'], catch_first_error=case['cfe'])
         if trace is not None:
@@ -336,6 +337,18 @@ class AliasTwin(BoundedCheck):
                     bad('use_aliases only renames a column to one of its own aliases', 'c18.export-name', (col, new), sorted(allowed), new, 'rename_only')
                 elif len(pref_here) == 1 and new != pref_here[0]:
                     bad('the preferred name is chosen where one is declared', 'c18.export-preferred', (col, new), pref_here[0], new, 'preferred_name')
+        # the export options keep their meaning under use_aliases: same data columns as the canonical twin's export with the same options
+        m.add_variable('_hidden', 7.0)
+        twin.add_variable('_hidden', 7.0)
+        for flags in (dict(status=False), dict(iterations=False), dict(include_internal=True), dict(status=False, iterations=False, include_internal=True)):
+            try:
+                d0, d1 = twin.to_dataframe(**flags), m.to_dataframe(use_aliases=True, **flags)
+            except ValueError:
+                break
+            if d1.shape != d0.shape or not all(eq_arr(d1.iloc[:, i].values, d0.iloc[:, i].values) for i in range(d0.shape[1])):
+                bad('exporting with use_aliases changes, drops or duplicates no data column (whatever the other export options)', 'c18.export-options', (amap, sorted(flags)),
+                    list(d0.columns), list(d1.columns), 'rename_only')
+                break
         return out
 
 
@@ -431,6 +444,20 @@ class TabularRoundTrip(BoundedCheck):
             df2 = fsic.tools.model_to_dataframe(m, status=st, iterations=it, include_internal=internal)
             if not df.equals(df2):
                 bad('to_dataframe and model_to_dataframe agree', 'c19.method-vs-function', 'equal', 'different')
+            # the table is a snapshot: later changes of the model do not reach it (and the round trip reproduces the exported values)
+            snap = fsic.tools.model_to_dataframe(m, status=st, iterations=it, include_internal=internal)
+            frozen = snap.copy(deep=True)
+            values_before = {c: m[c].copy() for c in m.index}
+            for c in m.index:
+                if m[c].dtype.kind == 'f':
+                    m[c][:] = m[c] + 1.0
+                elif m[c].dtype.kind == 'i':
+                    m[c][:] = m[c] + 1
+            if not snap.equals(frozen):
+                bad('each column holds exactly the series values at the time of the export (the table does not follow later changes of the model)',
+                    'c19.table-follows-model', 'unchanged table', 'table changed with the model', 'values')
+            for c in m.index:
+                m[c][:] = values_before[c]
             # from_dataframe round trip on the data columns
             res.cover('from_dataframe')
             data = m.to_dataframe(status=False, iterations=False)
